@@ -848,6 +848,8 @@ class TorState(object):
             self.all_routers = set()
             self.routers_by_hash = dict()
             self.routers_by_name = dict()
+            self.guards = dict()
+            self.authorities = dict()
             for line in data.split('\n'):
                 self._network_status_parser.feed_line(line)
             self._network_status_parser.done()
